@@ -1,138 +1,14 @@
-import SSV.Proofs.RelayLifeDefs3
+import SSV.Proofs.RelayLifeInv3c_p0
+import SSV.Proofs.RelayLifeInv3c_p1
+import SSV.Proofs.RelayLifeInv3c_p2
+import SSV.Proofs.RelayLifeInv3c_p3
+import SSV.Proofs.RelayLifeInv3c_p4
+import SSV.Proofs.RelayLifeInv3c_p5
+import SSV.Proofs.RelayLifeInv3c_p6
+import SSV.Proofs.RelayLifeInv3c_p7
+import SSV.Proofs.RelayLifeInv3c_p8
 namespace SSV.RelayLife
 variable (cfg : Cfg)
-
-theorem inv3c_arrive (s s' : State) (c : Nat) (ha : Inv3a s) (hI : Inv3c s) (h : step cfg s (.arrive c) = some s') : Inv3c s' := by
-  have g5 := ha.g5
-  clear ha
-  obtain ⟨g10⟩ := hI
-  simp only [step] at h
-  (repeat' split at h) <;> close_case3
-
-theorem inv3c_rLock (s s' : State)  (ha : Inv3a s) (hI : Inv3c s) (h : step cfg s (.rLock ) = some s') : Inv3c s' := by
-  have g5 := ha.g5
-  clear ha
-  obtain ⟨g10⟩ := hI
-  simp only [step] at h
-  (repeat' split at h) <;> close_case3
-
-set_option maxHeartbeats 1600000 in
-theorem inv3c_rProc (s s' : State) (ok : Bool) (ha : Inv3a s) (hI : Inv3c s) (h : step cfg s (.rProc ok) = some s') : Inv3c s' := by
-  have g5 := ha.g5
-  clear ha
-  obtain ⟨g10⟩ := hI
-  simp only [step] at h
-  (repeat' split at h) <;> close_case3
-
-theorem inv3c_rMore (s s' : State) (c : Nat) (ha : Inv3a s) (hI : Inv3c s) (h : step cfg s (.rMore c) = some s') : Inv3c s' := by
-  have g5 := ha.g5
-  clear ha
-  obtain ⟨g10⟩ := hI
-  simp only [step] at h
-  (repeat' split at h) <;> close_case3
-
-theorem inv3c_rUnlock (s s' : State)  (ha : Inv3a s) (hI : Inv3c s) (h : step cfg s (.rUnlock ) = some s') : Inv3c s' := by
-  have g5 := ha.g5
-  clear ha
-  obtain ⟨g10⟩ := hI
-  simp only [step] at h
-  (repeat' split at h) <;> close_case3
-
-theorem inv3c_rExit (s s' : State)  (ha : Inv3a s) (hI : Inv3c s) (h : step cfg s (.rExit ) = some s') : Inv3c s' := by
-  have g5 := ha.g5
-  clear ha
-  obtain ⟨g10⟩ := hI
-  simp only [step] at h
-  (repeat' split at h) <;> close_case3
-
-set_option maxHeartbeats 1600000 in
-theorem inv3c_init (s s' : State) (i : Nat) (ok : Bool) (ha : Inv3a s) (hI : Inv3c s) (h : step cfg s (.init i ok) = some s') : Inv3c s' := by
-  have g5 := ha.g5
-  clear ha
-  obtain ⟨g10⟩ := hI
-  simp only [step] at h
-  (repeat' split at h) <;> close_case3
-
-theorem inv3c_dTimeout (s s' : State) (i : Nat) (ha : Inv3a s) (hI : Inv3c s) (h : step cfg s (.dTimeout i) = some s') : Inv3c s' := by
-  have g5 := ha.g5
-  clear ha
-  obtain ⟨g10⟩ := hI
-  simp only [step] at h
-  (repeat' split at h) <;> close_case3
-
-theorem inv3c_dPacket (s s' : State) (i : Nat) (ha : Inv3a s) (hI : Inv3c s) (h : step cfg s (.dPacket i) = some s') : Inv3c s' := by
-  have g5 := ha.g5
-  clear ha
-  obtain ⟨g10⟩ := hI
-  simp only [step] at h
-  (repeat' split at h) <;> close_case3
-
-theorem inv3c_dSend (s s' : State) (i : Nat) (ha : Inv3a s) (hI : Inv3c s) (h : step cfg s (.dSend i) = some s') : Inv3c s' := by
-  have g5 := ha.g5
-  clear ha
-  obtain ⟨g10⟩ := hI
-  simp only [step] at h
-  (repeat' split at h) <;> close_case3
-
-theorem inv3c_uFail (s s' : State) (i : Nat) (ha : Inv3a s) (hI : Inv3c s) (h : step cfg s (.uFail i) = some s') : Inv3c s' := by
-  have g5 := ha.g5
-  clear ha
-  obtain ⟨g10⟩ := hI
-  simp only [step] at h
-  (repeat' split at h) <;> close_case3
-
-set_option maxHeartbeats 1600000 in
-theorem inv3c_cleanup (s s' : State) (i : Nat) (ha : Inv3a s) (hI : Inv3c s) (h : step cfg s (.cleanup i) = some s') : Inv3c s' := by
-  have g5 := ha.g5
-  clear ha
-  obtain ⟨g10⟩ := hI
-  simp only [step] at h
-  (repeat' split at h) <;> close_case3
-
-theorem inv3c_uRecv (s s' : State) (i : Nat) (k : Nat) (ha : Inv3a s) (hI : Inv3c s) (h : step cfg s (.uRecv i k) = some s') : Inv3c s' := by
-  have g5 := ha.g5
-  clear ha
-  obtain ⟨g10⟩ := hI
-  simp only [step] at h
-  (repeat' split at h) <;> close_case3
-
-set_option maxHeartbeats 1600000 in
-theorem inv3c_uStep (s s' : State) (i : Nat) (ha : Inv3a s) (hI : Inv3c s) (h : step cfg s (.uStep i) = some s') : Inv3c s' := by
-  have g5 := ha.g5
-  clear ha
-  obtain ⟨g10⟩ := hI
-  simp only [step] at h
-  (repeat' split at h) <;> close_case3
-
-theorem inv3c_timer (s s' : State) (i : Nat) (ha : Inv3a s) (hI : Inv3c s) (h : step cfg s (.timer i) = some s') : Inv3c s' := by
-  have g5 := ha.g5
-  clear ha
-  obtain ⟨g10⟩ := hI
-  simp only [step] at h
-  (repeat' split at h) <;> close_case3
-
-theorem inv3c_stopCall (s s' : State)  (ha : Inv3a s) (hI : Inv3c s) (h : step cfg s (.stopCall ) = some s') : Inv3c s' := by
-  have g5 := ha.g5
-  clear ha
-  obtain ⟨g10⟩ := hI
-  simp only [step] at h
-  (repeat' split at h) <;> close_case3
-
-set_option maxHeartbeats 1600000 in
-theorem inv3c_stop (s s' : State)  (ha : Inv3a s) (hI : Inv3c s) (h : step cfg s (.stop ) = some s') : Inv3c s' := by
-  have g5 := ha.g5
-  clear ha
-  obtain ⟨g10⟩ := hI
-  simp only [step] at h
-  (repeat' split at h) <;> close_case3
-
-set_option maxHeartbeats 1600000 in
-theorem inv3c_stopVisit (s s' : State) (i : Nat) (ha : Inv3a s) (hI : Inv3c s) (h : step cfg s (.stopVisit i) = some s') : Inv3c s' := by
-  have g5 := ha.g5
-  clear ha
-  obtain ⟨g10⟩ := hI
-  simp only [step] at h
-  (repeat' split at h) <;> close_case3
 
 theorem inv3c_step (s s' : State) (e : Ev) (ha : Inv3a s) (hI : Inv3c s) (h : step cfg s e = some s') : Inv3c s' := by
   cases e with
